@@ -74,7 +74,7 @@ fn case_strategy(_t: Tier) -> BoxedStrategy<Case> {
         1 => Just(Attack::Degenerate),
         2 => (0u8..2, prop_oneof![Just(Fe(F::one())), fe_random()], proptest::option::of(edits()))
             .prop_map(|(early, shift, edits)| Attack::LateBoundOpenings { early, shift, edits }),
-        3 => (0u8..3, 1u8..18, fe_random()).prop_map(|(region, count, with)| Attack::ClaimedInputs { region, count, with }),
+        4 => (prop_oneof![1 => 0u8..3, 2 => 3u8..5], prop_oneof![3 => 1u8..4, 1 => 1u8..18], fe_random()).prop_map(|(region, count, with)| Attack::ClaimedInputs { region, count, with }),
     ];
     // a fifth of the circuits carry a long run of public inputs
     (prog::with_pi_burst(prog::ops_strategy(10, 2, 0), 200), attack, any::<u64>())
@@ -84,6 +84,17 @@ fn case_strategy(_t: Tier) -> BoxedStrategy<Case> {
 
 fn check(ctx: &Ctx, c: &Case) -> PResult {
     let mut ops = c.ops.clone();
+    // lying about public inputs is most interesting on long vectors (batched /
+    // chunked evaluation paths): four cases in five get a run of 17..100
+    // public inputs (a tenth of them zero)
+    if let Attack::ClaimedInputs { .. } = &c.attack {
+        if c.seed % 5 != 0 {
+            let n = [17usize, 33, 34, 40, 47, 49, 65, 100][(c.seed >> 8) as usize % 8];
+            for (i, v) in crate::fe::f_stream(c.seed ^ 0xb0b, n).into_iter().enumerate() {
+                ops.push(Op::Public(Fe(if (c.seed >> (16 + i % 40)) & 15 == 0 { F::zero() } else { v })));
+            }
+        }
+    }
     let mut fam_class = String::new();
     if let Attack::ForcedFamily { fam, violate, sel_val, xor, r } = &c.attack {
         let rr: Vec<F> = r.iter().map(|x| x.0).collect();
@@ -319,15 +330,45 @@ fn check(ctx: &Ctx, c: &Case) -> PResult {
             let len = honest_pi.len();
             let k = (*count as usize).min(len);
             let mut claimed = honest_pi.clone();
-            let positions: Vec<usize> = match region % 3 {
-                0 => (len - k..len).collect(),
-                1 => (0..k).collect(),
+            let positions: Vec<usize> = match region % 5 {
+                0 | 3 => (len - k..len).collect(),
+                1 | 4 => (0..k).collect(),
                 _ => (0..k).map(|j| (j * 7 + c.seed as usize) % len).collect(),
             };
-            for (j, p) in positions.iter().enumerate() {
-                claimed[*p] += with.0 + F::from(j as u64 + 1);
+            // what is actually proved
+            let mut proved_w = snap.witnesses.clone();
+            let mut proved_pi = snap.public_inputs.clone();
+            if region % 5 >= 3 {
+                // the claimed statement is the original one; the instance that is
+                // PROVED has zero public inputs (and zeroed witnesses on those
+                // rows) at the chosen positions - a verifier that loses those
+                // entries of a long vector evaluates them as zero as well
+                for p in &positions {
+                    let (row, _) = proved_pi[*p];
+                    proved_pi[*p].1 = F::zero();
+                    if let Some(r) = layout.rows.get(row) {
+                        for wi in r.w {
+                            if wi >= 2 {
+                                proved_w[wi] = F::zero();
+                            }
+                        }
+                    }
+                }
+                let table = spec::wire_table(&layout, &proved_w);
+                let mut dense = vec![F::zero(); layout.size()];
+                for (r, v) in &proved_pi {
+                    dense[*r] = *v;
+                }
+                if !spec::eval_rows(&layout, &table, &dense).is_empty() {
+                    ctx.excluded("zeroed instance does not satisfy the circuit");
+                    return Ok(());
+                }
+            } else {
+                for (j, p) in positions.iter().enumerate() {
+                    claimed[*p] += with.0 + F::from(j as u64 + 1);
+                }
             }
-            if claimed == honest_pi {
+            if claimed == proved_pi.iter().map(|p| p.1).collect::<Vec<F>>() {
                 ctx.excluded("nothing forged");
                 return Ok(());
             }
@@ -335,7 +376,7 @@ fn check(ctx: &Ctx, c: &Case) -> PResult {
             let mut b14 = [F::zero(); 14];
             b14.copy_from_slice(&bl);
             let dev = Deviation { transcript_pi: Some(claimed.clone()), ..Default::default() };
-            let out = match refprover::prove(&keys, &layout, &srs, &snap.witnesses, &snap.public_inputs, &b14, Version::V3, &dev) {
+            let out = match refprover::prove(&keys, &layout, &srs, &proved_w, &proved_pi, &b14, Version::V3, &dev) {
                 Ok(o) => o,
                 Err(e) => {
                     ctx.label(&format!("reference prover stopped: {e}"));
@@ -346,7 +387,7 @@ fn check(ctx: &Ctx, c: &Case) -> PResult {
                 "malicious prover: proves one public-input vector, hashes another ({} of {} entries differ, {})",
                 if k == 1 { "1" } else { "2+" },
                 match len { 0..=15 => "<16", 16..=31 => "16-31", 32..=63 => "32-63", _ => "64+" },
-                ["tail", "head", "spread"][(*region % 3) as usize]
+                ["tail", "head", "spread", "tail, proved with zeros there", "head, proved with zeros there"][(*region % 5) as usize]
             );
             c03::compare(ctx, &cls, &verifier, &rv, &out.proof.to_bytes(), &claimed, v3, Some(false))?;
         }
